@@ -244,7 +244,7 @@ package backend
 //@   ensures [closed] !batch_open
 
 //@ func (*backend).compact(ctx, revision) (err)
-//@   props C08
+//@   props C07 C08
 //@   nosafety
 //@   requires wf_backend(b) && b.scanner != nil && !batch_open
 //@   modifies inferred:(*backend).compact ghost.bw_n ghost.bw_kind ghost.bw_key ghost.bw_val ghost.bw_old ghost.bw_ttl ghost.commits ghost.last_batch ghost.last_err ghost.batch_open ghost.floor ghost.floor_set
@@ -254,6 +254,8 @@ package backend
 //@   loop 0 invariant [closed] !batch_open
 //@   loop 0 invariant [wf] wf_backend(b) && b.scanner != nil
 //@   loop 0 invariant [borders] forall(j, 0 <= j && j < len(borders), true)
+// the borders are consumed as whole (start, end) pairs, in order
+//@   loop 0 step_lemma [advances-by-whole-pairs] i == head(i)+2
 
 //@ func (*backend).Compact(ctx, revision) (resp, err)
 //@   props C08 C09 C07
